@@ -122,6 +122,9 @@ def ite(c, a, b):
         return ("enum", a[1], tuple(ite(c, x, y) for x, y in zip(a[2], b[2])))
     if isinstance(a, tuple) or isinstance(b, tuple):
         raise ExecError("cannot merge structurally different values: %r / %r" % (a, b))
+    scalar = lambda v: isinstance(v, (bool, int)) or is_sym(v)
+    if not (scalar(a) and scalar(b)):
+        raise ExecError("cannot merge model objects: %r / %r" % (type(a).__name__, type(b).__name__))
     if isinstance(a, bool) or isinstance(b, bool) or z3.is_bool(a) or z3.is_bool(b):
         return z3.If(c, z3bool(a), z3bool(b))
     return z3.If(c, a, b)
